@@ -21,6 +21,7 @@ import numpy as np
 import jax.numpy as jnp
 
 from harness import core
+from harness.workers.fd_common import in_code_under_test as _icut
 from harness.workers import fd_common as fc
 from harness.workers import fd_direct as fdd
 
@@ -65,7 +66,8 @@ def dense_factor(kind, D, m, k, t, rs, basis):
   if kind == "zero_mix" and t % 3 == 1:
     return np.zeros((D, m))
   if kind == "lowrank":                      # all gradients inside one k-dimensional subspace
-    return basis[:, :k] @ rs.standard_normal((k, m))
+    kk = min(k, D)
+    return basis[:, :kk] @ rs.standard_normal((kk, m))
   if kind == "rank1":
     return np.outer(rs.standard_normal(D), rs.standard_normal(m)) / np.sqrt(m)
   G = rs.standard_normal((D, m))
@@ -162,6 +164,8 @@ def handle(job):
   except core.MachineryError:
     raise
   except Exception as e:
+    if not _icut(e):
+      raise
     return {"traces": [], "error": f"{type(e).__name__}: {e}", "kind": core.classify_exception(e),
             "tb": traceback.format_exc()[-1500:]}
 
